@@ -20,6 +20,15 @@ let () =
           output_string oc (p_result (Model.run p));
           output_char oc '\n');
       close_out oc
+  | [ _; "reprint"; inp; out ] ->
+      (* parse outputs and print them back: validates the output reader *)
+      let oc = open_out out in
+      with_lines inp (fun line ->
+          (match r_output (parse line) with
+           | Some o -> output_string oc (p_output o)
+           | None -> output_string oc "(panic)");
+          output_char oc '\n');
+      close_out oc
   | _ ->
       prerr_endline "usage: verif-model run <programs.sexp> <out>";
       exit 2
